@@ -759,7 +759,7 @@ pub fn run(ctx: Ctx, replay: Option<PathBuf>) -> i32 {
         (mk(0, false, false, Prior::Absent), thorough),
         (mk(0, true, false, Prior::Stale), thorough),
         (mk(5, false, true, Prior::Current), thorough),
-        (mk(4, true, true, Prior::Current), thorough),
+        (mk(2, true, true, Prior::Current), thorough),
     ];
     if thorough {
         for g in [0usize, 4, 5] {
